@@ -177,6 +177,19 @@ def run_factors(ctx):
                         if not same_scalar(got, float(dense[idx].item())):
                             ctx.fail('apply(values) is not the weight at the numberized position',
                                      dict(domains=list(dsh), rep=rname, values=repr(vals)), got, float(dense[idx].item()), tags=['factor-apply'])
+                    # re-assigning the weights: apply() and equality follow (no stale copy of the old weights)
+                    if numel:
+                        new_dense = dense.clone() + 10.0
+                        f.weights = new_dense.clone() if rname != 'nested' else new_dense.tolist()
+                        for idx in list(itertools.product(*[range(n) for n in dsh]))[:6]:
+                            vals = [d.denumberize(i) for d, i in zip(doms, idx)]
+                            got = f.apply(vals).item()
+                            ctx.evaluations += 1
+                            if not same_scalar(got, float(new_dense[idx].item())):
+                                ctx.fail('after assigning new weights, apply(values) still returns the old weight',
+                                         dict(domains=list(dsh), rep=rname, values=repr(vals)), got, float(new_dense[idx].item()), tags=['factor-apply', 'stale'])
+                                break
+                        f.weights = w if rname != 'nested' else w
                     f2 = FiniteFactor(list(doms), dense.clone())
                     ctx.evaluations += 1
                     if not (f == f2) or (f != f2):
@@ -227,8 +240,8 @@ def run_bindings(ctx):
     domsP = [lambda: FiniteDomain([0, 1]), lambda: RangeDomain(3)]
     dom_enc = ['finite 2 0 1', 'range 3']
     # edge labels: name, type, terminal
-    ELs = [('p', (0,), True), ('p', (0, 1), True), ('q', (0, 1), True), ('n', (0,), False)]
-    facs = [(0,), (1,), (0, 1)]   # factor = tuple of domain choices
+    ELs = [('p', (0,), True), ('p', (0, 1), True), ('q', (0, 1), True), ('n', (0,), False), ('r', (0, 0), True)]   # 'r': a node label twice
+    facs = [(0,), (1,), (0, 1), (0, 0), (1, 0)]   # factor = tuple of domain choices
     ops = [('dom', a, d) for a in range(2) for d in range(2)] + \
           [('fac', e, f) for e in range(len(ELs)) for f in range(len(facs))] + \
           [('lab', e) for e in range(len(ELs))]
@@ -238,7 +251,7 @@ def run_bindings(ctx):
         seqs = ctx.rng.sample(seqs, 2500)
     elif len(seqs) > 40000:
         seqs = ctx.rng.sample(seqs, 40000)
-    name_code = {'p': 0, 'q': 1, 'n': 2, 'S': 9}
+    name_code = {'p': 0, 'q': 1, 'n': 2, 'r': 3, 'S': 9}
     def enc_el(e):
         name, ty, term = ELs[e]
         return f'{name_code[name]} {enc_list(ty)} {enc_bool(term)}'
